@@ -59,12 +59,14 @@ class DirHandler(BaseHandler):
                     self.config,
                     vfs=self.vfs,
                 )
-            except GopherExceptions.FileNotFound:
+                fileentry = handler.getentry()
+            except (GopherExceptions.FileNotFound, OSError):
                 # Nobody can serve this entry (dangling symlink, FIFO, a name
                 # the security filter rejects, a file deleted since we listed
-                # the directory...).  Leave it out; don't fail the whole listing.
+                # the directory...), or it can't be read to describe it (gone
+                # or unreadable by the time its title is looked up).  Leave it
+                # out; don't fail the whole listing.
                 continue
-            fileentry = handler.getentry()
             self.prep_entriesappend(file, handler, fileentry)
 
     def prep_entriesappend(
